@@ -71,7 +71,7 @@ def main(argv):
     except ImportError:
         ck.notes.append("harness/avm_validate.py not present: AVM model validation skipped")
 
-    def consider(c, nctx):
+    def consider(c, nctx, force_ac=False):
         if c.real[0] == "build-exc":
             outcomes["unbuildable"] = outcomes.get("unbuildable", 0) + 1
             return
@@ -85,7 +85,7 @@ def main(argv):
             mismatches.append(c)
         if c.real[0] == "ok":
             semfails.extend(sem_check(ck, model, rng, c, nctx if so else max(nctx, 12), stats))
-            if c.version >= 3 and rng.random() < 0.35:
+            if c.version >= 3 and (force_ac or rng.random() < 0.35):
                 # the same program with assembleConstants=True must behave identically (constant blocks)
                 r2 = call_real(lambda: pt.compileTeal(c.expr, mode_of(pt, c.app), version=c.version, optimize=optimize_of(pt, c.ss, c.fp), assembleConstants=True))
                 outcomes["assembleConstants:" + (r2[0] if r2[0] != "exc" else r2[1])] = outcomes.get("assembleConstants:" + (r2[0] if r2[0] != "exc" else r2[1]), 0) + 1
@@ -122,6 +122,48 @@ def main(argv):
         for k, v in g.hist.items():
             hist[k] = hist.get(k, 0) + v
         consider(compile_case(pt, model, r, version, app, ss, fp), 3 if thorough else 2)
+    # 3. constant-dense programs, always also compiled with assembleConstants=True: k distinct integer and byte constants
+    #    with chosen multiplicities (so that frequency ranks, the pushint/intcblock split at rank 4 and value 128/2^7..2^14
+    #    boundaries, and blocks longer than 4 entries are all exercised); the program approves iff the weighted sum of the
+    #    constants (bytes contribute their length) is the precomputed total, so a constant loaded from the wrong block
+    #    position changes the verdict
+    def const_dense(rng):
+        smalls_ = [0, 1, 2, 5, 20, 63, 64, 127]
+        larges = [128, 129, 255, 256, 1000, 16383, 16384, 2 ** 32, 2 ** 63, 2 ** 64 - 1]
+        k = rng.choice([3, 5, 6, 7, 9, 12])
+        vals = rng.sample(smalls_, min(len(smalls_), rng.randrange(1, k))) + rng.sample(larges, min(len(larges), k))
+        rng.shuffle(vals)
+        vals = vals[:k]
+        mult = sorted((rng.choice([1, 2, 2, 3, 4, 5, 6]) for _ in vals), reverse=rng.random() < 0.7)
+        bts = [bytes([rng.randrange(256)]) * n for n in rng.sample(range(1, 40), rng.choice([0, 2, 3, 6]))]
+        bmult = [rng.choice([1, 2, 3]) for _ in bts]
+        terms, total = [], 0
+        for v, m in zip(vals, mult):
+            for _ in range(m):
+                # keep the running total below 2^64: large values enter through `% 1009`
+                if v >= 2 ** 31:
+                    terms.append(("op", "%", (), "u", (I(v), I(1009))))
+                    total += v % 1009
+                else:
+                    terms.append(I(v))
+                    total += v
+        for b, m in zip(bts, bmult):
+            for _ in range(m):
+                terms.append(("op", "len", (), "u", (B(b),)))
+                total += len(b)
+        rng.shuffle(terms)
+        # fold the terms into nested binary sums of random shape so that several blocks / stack depths occur
+        while len(terms) > 1:
+            i = rng.randrange(len(terms) - 1)
+            terms[i:i + 2] = [("nary", "+", "u", (terms[i], terms[i + 1]))]
+        return ("exit", ("op", "==", (), "u", (terms[0], I(total))))
+
+    n_cd = 400 if thorough else 60
+    for i in range(n_cd):
+        version = rng.choice([3, 4, 5, 6, 8, 10])
+        app = rng.random() < 0.5
+        consider(compile_case(pt, model, const_dense(rng), version, app, None, None), 1, force_ac=True)
+    ck.coverage["constant_dense_programs"] = n_cd
     ck.coverage["constructor_histogram"] = hist
     ck.coverage["compile_outcomes"] = outcomes
     ck.coverage["run_verdicts"] = stats
